@@ -329,6 +329,92 @@ func (h *c18Hist) endPeriod(viaHTTP bool) (obsRep, error) {
 	return o, nil
 }
 
+// ---- the property on one period, decided on the Go side as well, so that each class of
+// histogram violation gets a replay file of its own (the smallest failing case of the class)
+
+type c18Viol struct {
+	class string
+	size  int
+	fail  rig.GoFailure
+}
+
+var c18Viols []c18Viol
+
+func histOracle(viaHTTP bool, obs []uint64, o obsRep) (class, detail string) {
+	if o.Count != uint64(len(obs)) {
+		return "count", fmt.Sprintf("reported count %d, the period had %d observations", o.Count, len(obs))
+	}
+	var bs uint64
+	for _, b := range o.Buckets {
+		bs += b[1]
+	}
+	if bs != uint64(len(obs)) {
+		return "bucket count", fmt.Sprintf("bucket counters grew by %d in total, the period had %d observations", bs, len(obs))
+	}
+	shown := o.Kept != 0
+	if viaHTTP {
+		shown = o.Printed
+	}
+	if !shown {
+		return "", ""
+	}
+	if o.Kept == 0 {
+		return "percentiles printed although nothing was kept", fmt.Sprintf("/metrics printed 23 percentile lines %v for a period in which the sampled histogram kept none of its %d observations %v", o.Pctls, len(obs), clip(obs))
+	}
+	in := map[uint64]bool{}
+	for _, v := range obs {
+		in[v] = true
+	}
+	names := []string{}
+	for i := 0; i <= 20; i++ {
+		names = append(names, fmt.Sprintf("percentile%d", i*5))
+	}
+	names = append(names, "percentile99", "percentile99.9")
+	if len(o.Pctls) != 23 {
+		return "percentile", fmt.Sprintf("%d percentile values", len(o.Pctls))
+	}
+	mn, mx := o.Pctls[0], o.Pctls[20]
+	for i, p := range o.Pctls {
+		if !in[p] {
+			return "percentile", fmt.Sprintf("%s = %d is not one of the period's %d observations %v", names[i], p, len(obs), clip(obs))
+		}
+		if p < mn || p > mx {
+			return "percentile", fmt.Sprintf("%s = %d is outside [min %d, max %d]", names[i], p, mn, mx)
+		}
+	}
+	for _, v := range obs {
+		if v < mn || v > mx {
+			return "percentile", fmt.Sprintf("observation %d is outside the reported [min %d, max %d]", v, mn, mx)
+		}
+	}
+	return "", ""
+}
+
+func clip(vs []uint64) string {
+	if len(vs) <= 12 {
+		return fmt.Sprint(vs)
+	}
+	return fmt.Sprint(vs[:12]) + "..."
+}
+
+func c18FlushViols(w *rig.Writer) {
+	best := map[string]c18Viol{}
+	var order []string
+	for _, v := range c18Viols {
+		b, ok := best[v.class]
+		if !ok {
+			order = append(order, v.class)
+		}
+		if !ok || v.size < b.size {
+			best[v.class] = v
+		}
+	}
+	for _, c := range order {
+		w.Fail(best[c].fail)
+	}
+	c18Viols = nil
+}
+
 type c18HistDesc struct {
 	Kind     string    `json:"kind"` // "hist"
 	Sampled  bool      `json:"sampled"`
@@ -344,6 +430,7 @@ func runHist(w *rig.Writer, pool *histPool, d c18HistDesc) (rig.Case, bool) {
 	nontrivial := false
 	wraps := false
 	nothingKept := false
+	violClass, violDetail := "", ""
 	d.Observed = nil
 	for _, sp := range d.Periods {
 		obs := sp.expand()
@@ -357,6 +444,9 @@ func runHist(w *rig.Writer, pool *histPool, d c18HistDesc) (rig.Case, bool) {
 		}
 		d.Observed = append(d.Observed, o)
 		items = append(items, gal.Pair(sp.coq(), o.coq()))
+		if class, detail := histOracle(d.HTTP, obs, o); class != "" && violClass == "" {
+			violClass, violDetail = class, fmt.Sprintf("period %d: %s", len(d.Observed), detail)
+		}
 		if distinct(obs) > 1 {
 			nontrivial = true
 		}
@@ -384,6 +474,11 @@ func runHist(w *rig.Writer, pool *histPool, d c18HistDesc) (rig.Case, bool) {
 	var tags []string
 	if nothingKept && d.HTTP {
 		tags = []string{"C18 sampled histogram period with 1-3 observations read from /metrics"}
+	}
+	if violClass != "" {
+		db, _ := json.Marshal(d)
+		c18Viols = append(c18Viols, c18Viol{class: violClass, size: len(db), fail: rig.GoFailure{Kind: "counterexample",
+			What: "histogram report violates C18 (" + violClass + "): " + violDetail, Input: d, Detail: violDetail, Tags: tags}})
 	}
 	return rig.Case{Desc: d, Coq: gal.App("CHist", gal.Bool(d.Sampled), gal.Bool(d.HTTP), gal.Bool(fresh), gal.List(items)),
 		Nontrivial: nontrivial, Tags: tags}, true
@@ -939,6 +1034,7 @@ const c18Rule = "value case: x > 15 (beyond the identity buckets); mono pair: tw
 	"concurrent case: >= 2 goroutines and >= 2 periods that received observations; counter case: >= 2 goroutines"
 
 func c18Finish(w *rig.Writer) {
+	c18FlushViols(w)
 	w.Res.Rule = c18Rule
 	if err := w.Finish([]string{"base.Bytes", "base.Harness", "metrics.Hist", "checks.Check18"}, "case18", "check18"); err != nil {
 		rig.Die("%v", err)
@@ -1079,6 +1175,7 @@ func c18child(e *env) {
 	for _, d := range ks {
 		add(runCounter(w, d, nil))
 	}
+	w.Shards = 8
 	c18Finish(w)
 }
 
